@@ -285,6 +285,42 @@ func Run(run *kernel.Run, prop string) {
 	run.Res.Cfg["lookup_cov"] = kernel.Hex(w.lookupCov[:])
 }
 
+// opCollect: the garbage collector as a fault the tape decides.  One or two
+// complete collections (two empty every sync.Pool), finalizers run to
+// completion; before that, sometimes, the caller drops a key object (its
+// descendants - public halves, converted keys, encodings handed out - stay
+// in use).  Nothing observable may change: the step is followed by the
+// validity and key-immutability checks like every other step.
+func (w *World) opCollect() {
+	dropped := ""
+	if len(w.keys) > 1 && w.t.Chance("ops", "gc.drop", 1, 2) {
+		i := w.t.Choose("ops", "gc.which", len(w.keys))
+		dropped = fmt.Sprintf(" after dropping key %d (%s, %s)", i, w.keys[i].kind, w.keys[i].how)
+		w.dropKey(i)
+		w.r.Fault("key_object_dropped_before_gc")
+	}
+	n := 1 + w.t.Choose("ops", "gc.n", 2)
+	kernel.CollectGarbage(n)
+	w.r.Fault(fmt.Sprintf("garbage_collected_x%d", n))
+	w.r.Hist("%d gc x%d%s", w.step, n, dropped)
+}
+
+// dropKey forgets key i and the buffers that belong to it.
+func (w *World) dropKey(i int) {
+	w.keys = append(w.keys[:i:i], w.keys[i+1:]...)
+	var kept []*bufEntry
+	for _, b := range w.bufs {
+		if b.key == i {
+			continue
+		}
+		if b.key > i {
+			b.key--
+		}
+		kept = append(kept, b)
+	}
+	w.bufs = kept
+}
+
 type opKind struct {
 	name   string
 	weight int
@@ -310,6 +346,7 @@ func init() {
 		{"caller-mutation", 8, (*World).opMutate},
 		{"h2c", 2, (*World).opH2C},
 		{"point-coincident", 2, (*World).opCoincident},
+		{"collect-garbage", 2, (*World).opCollect},
 	}
 }
 
